@@ -431,6 +431,65 @@ def flag_subsets(ctx, tmp):
                      channel='in-process file->outfile')
 
 
+# --- third red-team pass: every VALUE of the valued flags (the flag subsets above use one value each) ----------------------------------------
+FLAG_VALUES = {'--indent_width': ['1', '2', '8', '0', '-1', '+3', ' 4', '07', '1_0', '3.0', 'x', ''], '--wrap_after': ['0', '1', '20', '-1', '-20', '+5', '1e1', 'x', ''],
+               '-k': ['upper', 'lower', 'capitalize', 'UPPER', 'title', ''], '-i': ['upper', 'lower', 'capitalize', 'Upper', ''], '-l': ['python', 'php', 'sql', 'PHP', ''],
+               '--comma_first': ['True', 'False', '0', '', 'no'], '--compact': ['True', 'False', '0', ''], '--keywords': ['lower'], '--identifiers': ['upper'], '--language': ['php']}
+
+
+def flag_values(ctx, tmp, only=None):
+    """in-process `sqlparse.cli.main` with every value of every valued flag (together with -r so that the layout values are read): the command line
+    accepts exactly the values format() accepts for the corresponding option — same output — and refuses (non-zero status, no traceback) the others"""
+    from sqlparse import cli as _cli
+    inp = os.path.join(tmp, 'val_in.sql')
+    outp = os.path.join(tmp, 'val_out.sql')
+    text = CLI_RICH
+    with open(inp, 'w', encoding='utf-8', newline='') as f:
+        f.write(text)
+    for flag, values in FLAG_VALUES.items():
+        for v in values:
+            if only is not None and [flag, v] != list(only):
+                continue
+            flags = ['-r', flag, v]
+            # the reference: argparse's own conversion (int(), bool(), the choices) and then format()
+            want = None
+            try:
+                canon = LONG_FLAGS.get(flag, flag)
+                k, conv = VAL_OPTS[canon]
+                val = conv(v)
+                if canon in ('-k', '-i') and val not in CASES or canon == '-l' and val not in ('python', 'php'):
+                    raise ValueError(v)
+                opts = {'reindent': True, k: val}
+                want = sqlparse.format(text, **opts)
+            except (ValueError, SQLParseError):
+                want = None
+            if os.path.exists(outp):
+                os.unlink(outp)
+            err = io.StringIO()
+            old = sys.stderr
+            sys.stderr = err
+            try:
+                try:
+                    rc = _cli.main([inp] + flags + ['--encoding', 'utf-8', '-o', outp])
+                except SystemExit as e:
+                    rc = e.code
+                except Exception as e:
+                    rc = 'raised ' + type(e).__name__
+            finally:
+                sys.stderr = old
+            ctx.evaluations += 1
+            ctx.count('cli:flag-value')
+            ctx.nontrivial.add(('flag-value', flag, v))
+            got = open(outp, encoding='utf-8', newline='').read() if os.path.exists(outp) else None
+            if want is None:
+                if rc in (0, None) or isinstance(rc, str):
+                    ctx.fail('sqlformat accepts an option value that format() rejects', text, observed='status %r' % (rc,), required='non-zero status', flags=flags, encoding='utf-8',
+                             channel='in-process file->outfile')
+            elif rc not in (0, None) or got != want:
+                ctx.fail('sqlformat output differs from format()', text, observed=('status %r: ' % (rc,)) + (got or err.getvalue())[:300], required=want[:300], flags=flags, encoding='utf-8',
+                         channel='in-process file->outfile')
+
+
 def texts(ctx, n):
     rng = ctx.rng
     g = grammar.Gen(rng)
@@ -486,6 +545,7 @@ def run(ctx):
         oracle_cli(ctx, tmp, "select 'é' from t where x=1; select 2", 'latin-1', ['-r', '-k', 'upper'], True, True)
         cli_sweep(ctx, tmp)
         flag_subsets(ctx, tmp)
+        flag_values(ctx, tmp)
         oracle_cli(ctx, tmp, "select 'é', b from t where x=1; select 2", 'utf-8', ['-r'], False, True, inplace='same')
         oracle_cli(ctx, tmp, "select a from t -- é\n; select 2", 'latin-1', ['-k', 'upper'], False, True, inplace='symlink')
     finally:
@@ -506,6 +566,12 @@ def replay(ctx, payload):
     ex = payload.get('extra') or {}
     if 'bytes_hex' in ex:
         oracle_latin1(ctx, bytes.fromhex(ex['bytes_hex']))
+    elif 'flags' in ex and str(ex.get('channel', '')).startswith('in-process') and len(ex['flags']) == 3 and ex['flags'][0] == '-r' and ex['flags'][1] in FLAG_VALUES:
+        tmp = tempfile.mkdtemp(prefix='verif-c19-')
+        try:
+            flag_values(ctx, tmp, only=ex['flags'][1:])
+        finally:
+            shutil.rmtree(tmp, ignore_errors=True)
     elif 'flags' in ex:
         tmp = tempfile.mkdtemp(prefix='verif-c19-')
         try:
